@@ -9,21 +9,25 @@ from ..lean import cbits, fbits, parse_complex, parse_floats, run_driver
 ID = 'C12'
 DRIVERS = ('driver_bf',)
 THEOREMS = [
-    'PbBss.C12.gev_max',
     'PbBss.C12.gev_quotient_eq',
+    'PbBss.C12.gev_max',
     'PbBss.C12.gev_dominates_all',
+    'PbBss.C12.quotient_smul',
     'PbBss.C12.pca_max',
     'PbBss.C12.pca_scalings',
+    'PbBss.C12.pca_lambda_pos',
     'PbBss.C12.rank1_props',
-    'PbBss.C12.rank1_recovers',
     'PbBss.C12.pca_top_parallel',
     'PbBss.C12.gev_atf_parallel',
+    'PbBss.C12.rank1_recovers',
     'PbBss.C12.ban_factor',
     'PbBss.C12.ban_scale',
     'PbBss.C12.ban_preserves_quotient',
 ]
 ASSUMPTIONS = [
-    'scipy.linalg.eigh(A, B) / eig(A, B) contract: V^H B V = 1, V^H A V = diag(lambda) (Hermitian-definite pencil); '
+    'scipy.linalg.eigh(A, B) contract: V^H B V = 1, V^H A V = diag(lambda) (Hermitian-definite pencil); scipy.linalg.eig '
+    '(use_eig=True) is assumed to return the same eigen-directions with another column normalisation (the SNR is '
+    'scale invariant: theorem quotient_smul); '
     'np.linalg.eigh contract: U unitary, U^H A U = diag(lambda), ascending.  Re-checked numerically per run: the driver '
     'uses its own Cholesky + Jacobi routines and must reproduce the code up to the eigenvector gauge',
     'np.sqrt on complex numbers enters the model as a parameter csqrt with contract |csqrt z| = sqrt|z| and '
@@ -70,20 +74,53 @@ def _close(got, want, rel, scale=None):
 
 def _pair(rng, lead, D, tkind=None):
     noise, cmax = U.hpd_stack(rng, lead, D)
+    if tkind is None and rng.random() < 0.06:
+        # degenerate: all generalised eigenvalues coincide
+        return noise * 10 ** rng.uniform(-2, 2), noise, cmax, 'multiple-of-noise'
     target, tkind = U.psd_target(rng, lead, D, kind=tkind)
     return target, noise, cmax, tkind
+
+
+# ----------------------------------------------------------------------------- contracts of the externals (re-checked per run)
+def _contract_geigh(ctx, X, N, vals, V, c):
+    """scipy.linalg.eigh(X, N):  V^H N V = 1,  V^H X V = diag(vals),  vals ascending"""
+    t = 100 * rt(c)
+    r1 = np.max(np.abs(V.conj().T @ N @ V - np.eye(len(vals))))
+    r2 = np.max(np.abs(V.conj().T @ X @ V - np.diag(vals))) / max(np.max(np.abs(vals)), 1e-300)
+    ok = r1 <= t and r2 <= t and np.all(np.diff(vals) >= 0)
+    ctx.corr('contract:scipy.linalg.eigh(A,B)', ok, f'residuals {r1:.3g}, {r2:.3g} (tolerance {t:.3g})', {'A': X, 'B': N})
+
+
+def _contract_eigh(ctx, X, vals, Umat):
+    """np.linalg.eigh(X):  U^H U = 1,  U^H X U = diag(vals),  vals ascending"""
+    r1 = np.max(np.abs(Umat.conj().T @ Umat - np.eye(len(vals))))
+    r2 = np.max(np.abs(Umat.conj().T @ X @ Umat - np.diag(vals))) / max(np.max(np.abs(vals)), 1e-300)
+    ok = r1 <= 1e-12 and r2 <= 1e-12 and np.all(np.diff(vals) >= 0)
+    ctx.corr('contract:np.linalg.eigh', ok, f'residuals {r1:.3g}, {r2:.3g}', {'A': X})
+
+
+def _contract_csqrt(ctx):
+    """np.sqrt on complex numbers:  |sqrt z| = sqrt |z|,  sqrt(x + 0j) = sqrt(x) for x >= 0"""
+    z = U.cnormal(ctx.rng, (64,)) * 10 ** ctx.rng.uniform(-6, 6, size=64)
+    z[:8] = -np.abs(z[:8].real)
+    z[8:16] = np.abs(z[8:16].real)
+    ok = np.allclose(np.abs(np.sqrt(z)), np.sqrt(np.abs(z)), rtol=1e-14, atol=0)
+    x = np.abs(z.real)
+    ok = ok and np.array_equal(np.sqrt(x + 0j), np.sqrt(x) + 0j)
+    ctx.corr('contract:np.sqrt(complex)', bool(ok), 'complex square root contract violated', {'z': z})
 
 
 # ----------------------------------------------------------------------------- correspondence
 def corr(ctx):
     rng = ctx.rng
+    _contract_csqrt(ctx)
     lines, metas = [], []
 
     def add(line, *meta):
         lines.append(line)
         metas.append(meta)
 
-    n = ctx.n(40, 600)
+    n = ctx.n(150, 1500)
     for i in range(n):
         D = int(rng.integers(2, 9))
         lead = U.lead_shape(rng)
@@ -128,6 +165,14 @@ def corr(ctx):
             add(f'rank1pca {D} {cbits(X)}', 'rank1pca', e_p[idx], (pvals, 1.0), d)
             add(f'rank1gev {D} {cbits(X)} {cbits(N)}', 'rank1gev', e_g[idx], (gvals, c), d)
             add(f'ban {D} {cbits(bw_vec[idx])} {cbits(N)}', 'ban', wb[idx], c, {'vector': bw_vec[idx], 'noise': N})
+            # selection step on the REAL solver's output (no gauge freedom: the code makes the same deterministic call)
+            if not ue:
+                sv, sV = sl.eigh(X, N)
+                add(f'gevsel {D} {fbits(sv)} {cbits(sV)}', 'gevsel', wg[idx], None, d)
+                _contract_geigh(ctx, X, N, sv, sV, c)
+            nv, nV = np.linalg.eigh(X)
+            add(f'pcasel {D} {fbits(nv)} {cbits(nV)}', 'pcasel', (vtop[idx], ltop[idx]), None, d)
+            _contract_eigh(ctx, X, nv, nV)
     ctx.sample({'op': 'gev/pca/rank1/ban', 'shape': list(target.shape), 'target_kind': tkind, 'use_eig': ue,
                 'scaling': scaling, 'cond_max': cmax})
     out = run_driver(lines, exe='driver_bf')
@@ -175,6 +220,13 @@ def corr(ctx):
                 continue
             ok, err = _close(vals.view(np.complex128), np.asarray(want).ravel(), 10 * rt(c) / gap)
             ctx.corr(f'get_{kind[5:]}_rank_one_estimate', ok, f'max rel. difference {err:.3g} (gap {gap:.3g})', data)
+        elif kind == 'gevsel':
+            ok, err = _close(vals.view(np.complex128), want, 1e-12)
+            ctx.corr('_get_gev_vector[selection from scipy.linalg.eigh output]', ok, f'max rel. difference {err:.3g}', data)
+        elif kind == 'pcasel':
+            ok, err = _close(vals[1:].view(np.complex128), want[0], 1e-12)
+            ok = ok and abs(vals[0] - want[1]) <= 1e-12 * abs(want[1])
+            ctx.corr('get_pca[selection from np.linalg.eigh output]', ok, f'max rel. difference {err:.3g}', data)
         elif kind == 'ban':
             g, w = vals[0], vals[1:].view(np.complex128)
             ok, err = _close(w, want, rt(aux, 1e-6))
@@ -221,8 +273,12 @@ def gev_dominates_wrapper(target, noise, name):
         t = tol(U.cond_of(N))
         lmax = float(sl.eigh(X, N, eigvals_only=True)[-1])
         den = float(np.real(U.quad(w[f], N)))
+        if not np.any(w[f]):
+            # a zero beamformer has no SNR and cannot exceed anything (e.g. Souden's MVDR for a rank-one estimate whose
+            # transfer function vanishes at the chosen reference channel: w = conj(a_ref) * mvdr = 0); not judged
+            continue
         if not den > 0:
-            return Fail('zero-vector', f'{name}: bin {f}: w^H Phi_nn w = {den}')
+            return Fail('non-positive-noise-power', f'{name}: bin {f}: w^H Phi_nn w = {den} for a non-zero vector')
         q = float(np.real(U.quad(w[f], X))) / den
         qg = U.rayleigh(wg[f], X, N)
         if q > lmax * (1 + t) or q > qg + 2 * t * abs(lmax):
@@ -359,7 +415,7 @@ def ban_keeps_snr(target, noise, use_eig):
 # ----------------------------------------------------------------------------- search
 def search(ctx):
     rng = ctx.rng
-    n = ctx.n(100, 2000)
+    n = ctx.n(400, 4000)
     for i in range(n):
         if ctx.out_of_time():
             break
